@@ -21,6 +21,9 @@ async def _bridge_life(nports: int, acts: List[str]) -> str:
     loop = asyncio.get_running_loop()
     loop.set_exception_handler(lambda l, ctx: None)
     ports = BH.free_udp_ports(nports)
+    for a in acts:
+        if a.startswith("bad:"):        # this configured port can never be bound (outside 0..65535: bind raises OverflowError, not OSError)
+            ports[int(a[4:])] = 70000 + int(a[4:])
     count = [0]
 
     def cb(device):
@@ -52,9 +55,12 @@ async def _bridge_life(nports: int, acts: List[str]) -> str:
                         # nobody holds the port -> the datagram goes nowhere (short grace only); somebody other than the
                         # harness holds it -> that can only be the bridge: a delivery must follow, wait for it generously
                         # (so a loaded machine cannot turn a delivery into a "dropped")
-                        held_by_bridge = i not in others and not BH.bindable(ports[i])
-                        tx.sendto(dgram, ("127.0.0.1", ports[i]))
-                        got = await BH.pump(lambda: count[0] > n0, timeout=2.0 if held_by_bridge else 0.03)
+                        if ports[i] > 65535:             # nothing can be sent to (or listen on) a port that does not exist
+                            got = False
+                        else:
+                            held_by_bridge = i not in others and not BH.bindable(ports[i])
+                            tx.sendto(dgram, ("127.0.0.1", ports[i]))
+                            got = await BH.pump(lambda: count[0] > n0, timeout=2.0 if held_by_bridge else 0.03)
                         res = "delivered" if got else "dropped"
                         if count[0] > n0 + 1:
                             res = "delivered-more-than-once"
@@ -67,6 +73,8 @@ async def _bridge_life(nports: int, acts: List[str]) -> str:
                         except OSError:
                             s.close()
                             res = "busy"
+                    elif a.startswith("bad:"):
+                        pass
                     elif a.startswith("rel:"):
                         i = int(a[4:])
                         if i in others:
@@ -74,11 +82,12 @@ async def _bridge_life(nports: int, acts: List[str]) -> str:
                 except OSError:
                     res = "raise_OSError"
                 except Exception as e:  # noqa
-                    res = "raise_" + C.exc_name(e)
+                    # a start that fails, fails - whatever the class of the error (an out-of-range port gives OverflowError)
+                    res = "raise_OSError" if a in ("start", "enter") else "raise_" + C.exc_name(e)
                 # let the loop cycle so that closed transports release their ports
                 await asyncio.sleep(0)
                 await asyncio.sleep(0)
-                held = "".join("0" if (i in others or BH.bindable(p)) else "1" for i, p in enumerate(ports))
+                held = "".join("0" if (i in others or p > 65535 or BH.bindable(p)) else "1" for i, p in enumerate(ports))
                 out.append(f"{res}:{int(bridge.is_running)}:{held}")
         finally:
             try:
@@ -93,7 +102,12 @@ async def _bridge_life(nports: int, acts: List[str]) -> str:
 
 
 def run_bridge_life(nports: int, acts: List[str]) -> str:
-    return H.loop().run_until_complete(_bridge_life(nports, acts))
+    async def bounded():
+        try:
+            return await asyncio.wait_for(_bridge_life(nports, acts), 120)
+        except asyncio.TimeoutError:
+            return "HARNESS-TIMEOUT(the bridge did not come back within 120 s)"
+    return H.loop().run_until_complete(bounded())
 
 
 # ---------------------------------------------------------------------------------------------
@@ -107,6 +121,7 @@ class Device:
         self.open = 0
         self.eofs = 0
         self.garbage = False
+        self.hangup = False        # answer the next frame by half-closing the connection
         self.server = None
         self.port = 0
 
@@ -116,6 +131,7 @@ class Device:
 
     async def _serve(self, reader, writer):
         self.open += 1
+        dead = False
         try:
             step = 0
             while True:
@@ -124,6 +140,13 @@ class Device:
                     self.eofs += 1
                     break
                 step += 1
+                if self.hangup or dead:
+                    # the device stops talking on this connection: it half-closes (the client reads end-of-stream instead of a reply)
+                    # but keeps listening, so it still sees when the client closes
+                    if not dead:
+                        writer.write_eof()
+                    dead, self.hangup = True, False
+                    continue
                 if data[6:8] == b"\xa1\x00" or data[6:8] == b"\xa6\x00":      # login
                     writer.write(bytes.fromhex(H.login_reply(b"\x11\x22\x33\x44")))
                 elif self.garbage:
@@ -188,6 +211,9 @@ async def _client_life(api_type: str, acts: List[str]) -> str:
                 elif a == "opx":
                     dev.garbage = True
                     r = await (api.get_state() if api_type == "type1" else api.get_shutter_state())
+                elif a == "opeof":
+                    dev.hangup = True
+                    r = await (api.get_state() if api_type == "type1" else api.stop())
                 elif a == "disc":
                     await api.disconnect()
                 elif a == "with" or a.startswith("withx"):
@@ -224,12 +250,22 @@ async def _client_life(api_type: str, acts: List[str]) -> str:
     finally:
         A.open_connection = saved
         try:
-            await api.disconnect()
+            await asyncio.wait_for(api.disconnect(), 2)
         except Exception:
             pass
-        await dev.stop()
+        for t in transports:            # whatever the client left open (a leak is reported above, it must not hang the harness:
+            t.abort()                   # Server.wait_closed() waits for every connection)
+        try:
+            await asyncio.wait_for(dev.stop(), 3)
+        except Exception:
+            pass
     return " ".join(out)
 
 
 def run_client_life(api_type: str, acts: List[str]) -> str:
-    return H.loop().run_until_complete(_client_life(api_type, acts))
+    async def bounded():
+        try:
+            return await asyncio.wait_for(_client_life(api_type, acts), 60)
+        except asyncio.TimeoutError:
+            return "HARNESS-TIMEOUT(the client did not come back within 60 s)"
+    return H.loop().run_until_complete(bounded())
